@@ -216,7 +216,9 @@ def run_config(cfg):
         what = (c.struct_bad[:2] + [l for l, _ in c.sats[:2]])
         res.status = 'violation'
         res.violations.append(dict(what='layer output differs from the reference composition (%s); largest difference on replayed inputs %.3g' % ('; '.join(what), worst),
-                                   facts=facts, replay=dict(kind='values', x=(wx if wx is not None else xv).tolist(), tau=1e-6), reproduced=worst > 1e-6))
+                                   facts=facts, replay=dict(kind='values', x=(wx if wx is not None else xv).tolist(), tau=1e-6), reproduced=worst > 1e-6,
+                                   # an unrecognised but algebraically equal formulation must not raise an alarm: if nothing reproduces it is inconclusive
+                                   path_dependent=not c.sats))
     return res
 
 
